@@ -6,3 +6,5 @@ import CheetahModel.Properties.C08
 #print axioms C08.filter_keeps
 #print axioms C08.merge_track_particle_beam
 #print axioms C08.marker_identity
+#print axioms C08.skippability_table
+#print axioms C08.energy_changing_or_nonlinear_not_skippable
